@@ -277,9 +277,10 @@ func RunAPI(c APICase) APIResult {
 			kept = append(kept, calls[i])
 			keptIdx = append(keptIdx, i)
 		} else if o.cls != "panic" && (len(o.emis) > 0 || len(o.cbs) > 0) {
-			res.Violations = append(res.Violations, Violation{"C10", "RejectedCallChangedBehaviour",
-				fmt.Sprintf("%s me=%d: call %d %s(%d,%s) is refused (%s) yet sends %v and invokes the callbacks %v (sequence %v)",
-					c.Proto, c.Me, i, calls[i].Op, calls[i].I, calls[i].K, o.cls, emisKinds(o.emis), o.cbs, calls)})
+			// what a refused call does WHILE it is refused is not fixed by C10 (only the subsequent behaviour is): recorded, not judged;
+			// the insertion check below judges whether anything later differs
+			res.Notes = append(res.Notes, fmt.Sprintf("call %d %s(%d,%s) is refused (%s) yet sends %v and invokes the callbacks %v",
+				i, calls[i].Op, calls[i].I, calls[i].K, o.cls, emisKinds(o.emis), o.cbs))
 		}
 	}
 	if len(kept) < len(calls) {
@@ -327,6 +328,9 @@ func RunAPI(c APICase) APIResult {
 			obs3 := runAPICalls(c, flood, &scratch)
 			for i := range calls {
 				a, b := obs[i], obs3[floodIdx[i]]
+				if a.cls == "ST" || a.cls == "II" { // a refused call: its class and Running() are prescribed, what else it does while refused is not
+					b.emis, b.cbs = a.emis, a.cbs
+				}
 				if a.cls != b.cls || a.running != b.running || !sameEmis(a.emis, b.emis) || fmt.Sprint(a.cbs) != fmt.Sprint(b.cbs) {
 					res.Violations = append(res.Violations, Violation{"C10", "RejectedCallChangedBehaviour",
 						fmt.Sprintf("%s me=%d: call %d %s behaves differently once every rejected call is made %d times instead of once: (%s,%v,%v,%v) vs (%s,%v,%v,%v) (sequence %v)",
